@@ -2777,7 +2777,16 @@ fn random_wconfig(rng: &mut Rng) -> WConfig {
 fn emit_c14(w: &mut dyn Write, id: &mut usize, tag: &str, cfg: &WConfig, ops: &[u8]) {
     *id += 1;
     // every third case on a transport that reports vectored writes
-    writeln!(w, "case c14-{tag}-{} codec={}{}{}{}", *id, cfg.sel.name(), if cfg.parts { " init=parts" } else { "" }, if cfg.rscript.is_empty() { "" } else { rd_style(*id) }, if *id % 3 == 1 { " vec=1" } else { "" }).unwrap();
+    // every seventh case on a `Framed` built by `from_parts(FramedParts::with_read_buf(..))` with a
+    // non-empty leftover read buffer (a protocol upgrade): the leftover is input, never output
+    let init = if cfg.parts {
+        " init=parts"
+    } else if *id % 7 == 2 {
+        [" init=rbuf:474554202f636861740d0a", " init=rbuf:0a", " init=rbufr:9000:6162630a"][*id / 7 % 3]
+    } else {
+        ""
+    };
+    writeln!(w, "case c14-{tag}-{} codec={}{}{}{}", *id, cfg.sel.name(), init, if cfg.rscript.is_empty() { "" } else { rd_style(*id) }, if *id % 3 == 1 { " vec=1" } else { "" }).unwrap();
     if !cfg.wscript.is_empty() {
         writeln!(w, "wscript {}", cfg.wscript.iter().map(show_wr).collect::<Vec<_>>().join(" ")).unwrap();
     }
@@ -2936,7 +2945,7 @@ fn gen_c14(a: &Args, w: &mut dyn Write) {
                     k += 1;
                     id += 1;
                     let sel = if k % 3 == 0 { Sel::Lines } else { Sel::Bytes };
-                    writeln!(w, "case c14-big-{id} codec={}{}{}", sel.name(), if k % 4 == 1 { " init=parts" } else { "" }, if k % 2 == 0 { " vec=1" } else { "" }).unwrap();
+                    writeln!(w, "case c14-big-{id} codec={}{}{}", sel.name(), if k % 4 == 1 { " init=parts" } else if k % 4 == 3 { " init=rbuf:6c6566746f766572" } else { "" }, if k % 2 == 0 { " vec=1" } else { "" }).unwrap();
                     if !ws.is_empty() {
                         writeln!(w, "wscript {}", ws.iter().map(show_wr).collect::<Vec<_>>().join(" ")).unwrap();
                     }
